@@ -256,6 +256,8 @@ func (v *Muxer) handle(c net.Conn) {
 	})
 	if err != nil {
 		xl.Warnf("listener is already closed, ignore this request")
+		// nobody will take this connection any more
+		_ = c.Close()
 	}
 }
 
